@@ -6,6 +6,8 @@
 import Driver.Codec
 import Driver.OpsVector
 import Driver.OpsFrame
+import Driver.OpsLoD
+import Driver.OpsObs
 
 open Lean DI DI.Codec
 
@@ -14,6 +16,12 @@ def dispatch (op : String) (a : Json) : Except String Json :=
   | some r => r
   | none =>
   match DI.Ops.frameOp op a with
+  | some r => r
+  | none =>
+  match DI.Ops.lodOp op a with
+  | some r => r
+  | none =>
+  match DI.Ops.obsOp op a with
   | some r => r
   | none => .error s!"unknown op {op}"
 
